@@ -111,28 +111,21 @@ Proof.
   intros nullable b rs. apply (C35_rle_load_canonical N N.eqb u64_enc u64_dec nullable wf_u64 N_eqb_spec u64_dec_enc u64_enc_nonempty u64_dec_wf).
 Qed.
 
-(* 4. never panics — REFUTED on the unchanged tree (debug build: overflow checks on), with
-   the exact scope of the defect: a load panics only if the input carries a literal-run
-   header equal to i64::MIN or declares 2^64 or more items. *)
-Theorem C35_load_never_panics_partial :
+(* 4. loading arbitrary bytes never panics (as of /repo a623e02f7 and 1187ab90a: i64::MIN literal headers
+   and item counts of 2^64 and more are BadFormat errors).  Over the abstract codec, hence
+   for u64 / i64 / String / Vec<u8>, nullable or not. *)
+Theorem C35_load_never_panics :
   forall (V : Type) (veqb : V -> V -> bool) (dec : bytes -> option (V * bytes)) (nullable : bool) (b : bytes),
-  rle_load V veqb dec nullable b = Panic ->
-  has_min_header V dec b = true \/ pow64 <= declared_items V dec b.
-Proof. intros V veqb dec nullable b. exact (rle_load_panic V veqb (fun _ => []) dec nullable b). Qed.
+  rle_load V veqb dec nullable b <> Panic.
+Proof. intros V veqb dec nullable b. exact (rle_load_no_panic V veqb dec nullable b). Qed.
 
-Theorem C35_load_never_panics_refuted_min_header :
-  exists b : bytes, wf_bytes b /\ u64_load false b = Panic.
-Proof.
-  exists [128;128;128;128;128;128;128;128;128;127]. split; [|vm_compute; reflexivity].
-  apply wf_bytesb_spec. vm_compute. reflexivity.
-Qed.
-
-Theorem C35_load_never_panics_refuted_item_overflow :
-  exists b : bytes, wf_bytes b /\ u64_load true b = Panic.
-Proof.
-  exists [0;255;255;255;255;255;255;255;255;255;1;2;5]. split; [|vm_compute; reflexivity].
-  apply wf_bytesb_spec. vm_compute. reflexivity.
-Qed.
+(* the inputs that used to panic are now rejected *)
+Example C35_former_panics_rejected :
+  u64_load false [128;128;128;128;128;128;128;128;128;127] = Err /\
+  u64_load true [0;255;255;255;255;255;255;255;255;255;1;2;5] = Err /\
+  u64_load true [0;255;255;255;255;255;255;255;255;255;1] = Err /\
+  u64_load true [0;254;255;255;255;255;255;255;255;255;1] = Ok [(18446744073709551614, None)].
+Proof. repeat split; vm_compute; reflexivity. Qed.
 
 Theorem C35_i64_load_canonical : forall nullable (b : bytes) rs,
   wf_bytes b -> i64_load nullable b = Ok rs ->
@@ -174,32 +167,25 @@ Proof.
   - exact (bool_load_group b rs Hwf H).
 Qed.
 
-Theorem C35_bool_never_panics_partial : forall b : bytes,
-  bool_load b = Panic -> pow64 <= bool_declared b.
-Proof. exact bool_load_panic. Qed.
-
-Theorem C35_bool_never_panics_refuted : exists b : bytes, wf_bytes b /\ bool_load b = Panic.
-Proof.
-  exists [255;255;255;255;255;255;255;255;255;1;1]. split; [|vm_compute; reflexivity].
-  apply wf_bytesb_spec. vm_compute. reflexivity.
-Qed.
+Theorem C35_bool_load_never_panics : forall b : bytes, bool_load b <> Panic.
+Proof. exact bool_load_no_panic. Qed.
 
 (* 6. delta columns.  [lo],[hi]: the i64 domain of the element type.  The delta loader
-   accepts a subset of the i64 RLE loader with the same runs, so canonical form and the
-   panic scope transfer; re-save is proved; of the save/load round trip only the second half
+   accepts a subset of the i64 RLE loader with the same runs, so canonical form transfers; re-save is proved; of the save/load round trip only the second half
    is proved (IF the loader accepts the writer's output THEN it holds the same values):
    that the per-slab domain check accepts every in-domain list is checked differentially. *)
 Theorem C35_delta_load_is_rle_load : forall nullable lo hi (b : bytes) rs,
   delta_load nullable lo hi b = Ok rs -> i64_load nullable b = Ok rs.
 Proof. exact delta_load_rle. Qed.
 
-Theorem C35_delta_never_panics_partial : forall nullable lo hi (b : bytes),
-  delta_load nullable lo hi b = Panic ->
-  has_min_header Z i64_dec b = true \/ pow64 <= declared_items Z i64_dec b.
-Proof.
-  intros nullable lo hi b H. apply delta_load_panic_rle in H.
-  exact (rle_load_panic Z Z.eqb (fun _ => []) i64_dec nullable b H).
-Qed.
+Theorem C35_delta_load_never_panics : forall nullable lo hi (b : bytes),
+  delta_load nullable lo hi b <> Panic.
+Proof. exact delta_load_no_panic. Qed.
+
+Example C35_delta_former_panic_rejected :
+  delta_load false i64_min i64_max
+    [255;255;255;255;255;255;255;255;255;0;0; 255;255;255;255;255;255;255;255;255;0;1; 2;0] = Err.
+Proof. vm_compute. reflexivity. Qed.
 
 Theorem C35_delta_resave : forall nullable lo hi (b : bytes) rs,
   wf_bytes b -> delta_load nullable lo hi b = Ok rs ->
